@@ -209,6 +209,8 @@ func runC18(cfg *config) *Report {
 		}
 		return b.Bytes()
 	}
+	specAt := map[int]int{}
+	var specOps []string
 	for i, c := range cases {
 		in := frame(c)
 		f, rerr, p := realRead(in, c.enc, 1<<22)
@@ -217,8 +219,18 @@ func runC18(cfg *config) *Report {
 		}
 		results[i] = res{rerr, dumpFile(&f)}
 		ops = append(ops, fmt.Sprintf("read\t%s\t0\t0\t%s\t%s", b01(c.enc.LP), now, hx(in)))
+		if c.sp.cls == "impossible-date" {
+			// whether the column is one the format validates at all is asked of the PINNED model (Spec layouts and rules),
+			// so that a regenerated model that has lost a record's layout cannot turn an unvalidated column into a finding
+			specAt[i] = len(specOps)
+			specOps = append(specOps, fmt.Sprintf("readSpec\t%s\t0\t0\t%s\t%s", b01(c.enc.LP), now, hx(in)))
+		}
 	}
 	got, err := leanParallel(cfg.driver, ops, runtime.NumCPU())
+	if err != nil {
+		fatal("driver: %v", err)
+	}
+	gotSpec, err := leanParallel(cfg.driver, specOps, runtime.NumCPU())
 	if err != nil {
 		fatal("driver: %v", err)
 	}
@@ -250,7 +262,7 @@ func runC18(cfg *config) *Report {
 		if len(c.lines[c.k]) >= 2 {
 			kind = string(c.lines[c.k][:2])
 		}
-		if rs.err == nil && c.sp.cls == "impossible-date" && strings.HasPrefix(got[i], "ok") {
+		if rs.err == nil && c.sp.cls == "impossible-date" && strings.HasPrefix(gotSpec[specAt[i]], "ok") {
 			// the model accepts the record too (the column is not validated: the value reads as 'no date')
 			rep.count("spoil-still-valid-by-model")
 			continue
